@@ -48,6 +48,9 @@ EXTRA_STATIC = [
     'extern int es113x[]; __typeof__(es113x) es113 = { 1, 2 }, es114 = { 3 }; int es113x[3] = { 7 }; int es115 = sizeof es113 + sizeof es114 + sizeof es113x;',
     'typedef struct { int a; char c; } ES116T[]; ES116T es116 = { { 1, 2 } }, es117 = { { 1, 2 }, { 3, 4 }, { 5 } };', 'typedef int ES118T[][2]; ES118T es118 = { 1, 2, 3 }, es119 = { { 1 }, { 2 }, { 3 } };',
     'typedef unsigned short ES120T[]; int *es120 = (int *)(ES120T){ 1, 2 }; int es121 = sizeof (ES120T){ 1, 2, 3, 4 }; ES120T es122 = u"abc", es123 = u"a";',
+    # an array whose length an earlier declaration fixed, defined with [] and fewer initialisers than elements
+    'extern int es124[5]; int es124[] = { 1, 2 };', 'extern char es125[16]; char es125[] = "hi";', 'int es126[4]; int es126[] = { 7 }; int es127 = sizeof es126;',
+    'extern struct { int a; } es128dummy; extern long es128[3][2]; long es128[][2] = { { 1 } }; int es129 = sizeof es128;', 'static short es130[6]; static short es130[] = { [1] = 5 }; short *es131 = es130;',
     'struct { unsigned w[10]; int k; } es101 = { .w = U"xyz", .w[8] = 5, .k = 1 };', 'struct { unsigned short h[9]; } es102 = { .h = u"ab", .h[7] = 9, .h[3] = 1 };', "struct { char c[12]; } es103 = { .c = \"hi\", .c[11] = 'z' };",
     # designators that pass through anonymous members, followed by positional initialisers
     'struct { int a; struct { int b, c; }; int d; int e; } es81 = { .b = 1, 2, 3 };', 'struct { int a; struct { int b, c; }; int d; int e; } es82 = { 5, .c = 1, 3 };',
